@@ -483,15 +483,13 @@ func expectedID(name string, i, runs int) string {
 	return name
 }
 
-var failedRunRe = regexp.MustCompile(`([^\s:\[\]]+(?: \(\d+/\d+\))?): run failed`)
-
-func failedIDs(runError string) []string {
-	seen := map[string]bool{}
+// failedIDs: the runs the error returned by Run() names.  The wording of that error is nobody's contract; a run counts as
+// named when its id (`<scenario>` for a single run, `<scenario> (i/n)` otherwise) occurs in the text.
+func failedIDs(runError, name string, runs int) []string {
 	var out []string
-	for _, m := range failedRunRe.FindAllStringSubmatch(runError, -1) {
-		if !seen[m[1]] {
-			seen[m[1]] = true
-			out = append(out, under(m[1]))
+	for i := 1; i <= runs; i++ {
+		if id := expectedID(name, i, runs); strings.Contains(runError, id) {
+			out = append(out, under(id))
 		}
 	}
 	sort.Strings(out)
@@ -744,7 +742,7 @@ func (e *mrEnv) evalScenario(r *mrResult) {
 	returned := r.haveChild && r.child.Returned
 	failed := []string{}
 	if r.haveChild && r.child.RunError != "" {
-		failed = failedIDs(r.child.RunError)
+		failed = failedIDs(r.child.RunError, k.Name, k.Runs)
 		if len(failed) == 0 {
 			failed = []string{"?"}
 		}
@@ -943,7 +941,7 @@ func (e *mrEnv) evalFault(r *mrResult) {
 	returned := r.haveChild && r.child.Returned
 	failed := []string{}
 	if returned && r.child.RunError != "" {
-		failed = failedIDs(r.child.RunError)
+		failed = failedIDs(r.child.RunError, k.Name, k.Runs)
 	}
 	var finished, saved []string
 	started := 0
